@@ -90,8 +90,11 @@ def run(ctx):
         inp0 = {"zeta_knots_mm": zs, "K_knots_km_d": ks, "minimum_transmissivity_m2_d": tmin}
         try:
             scal = [float(T(z)) for z in levels]
-            arr = [float(v) for v in T(np.array(levels))]
+            la = np.array(levels)
+            arr = [float(v) for v in T(la)]
             err = None
+            if not common.same_as_snapshot(la, np.array(levels)):
+                err = "the caller's array of levels was modified by the evaluation"
         except Exception as e:  # noqa
             scal, err = None, "%s: %s" % (type(e).__name__, e)
         if err is not None:
@@ -134,6 +137,27 @@ def run(ctx):
                        "closed_form": mv}
             if wit:
                 break
+        if wit is None:
+            # what a caller does with a returned value must not change the function: in-place arithmetic on the result
+            # (unit conversion `T /= 86400`, an accumulator started from a value) and evaluation again
+            for z in (lo - 5.0, lo, levels[len(levels) // 2]):
+                try:
+                    r = T(z)
+                    before = float(r)
+                    if isinstance(r, np.ndarray):
+                        r /= 86400.0
+                        r += 1.0
+                    ra = T(np.array([z, z]))
+                    if isinstance(ra, np.ndarray):
+                        ra *= 0.0
+                    after = float(T(z))
+                except Exception as e:  # noqa
+                    wit = {"why": "raises when a returned value is modified in place and the level evaluated again", "exception": repr(e)[:200]}
+                    break
+                if after != before:
+                    wit = {"why": "modifying a returned value in place changes later evaluations (the result aliases the function's state)",
+                           "level": z, "first": before, "again": after}
+                    break
         if wit is None:
             # levels as they come out of a logger file stored in single precision (numpy.float32 scalars), as Python
             # ints and as numpy integers: the value is that of the real number the argument denotes
